@@ -467,7 +467,7 @@ VERIF_FAIL_PAT = re.compile(
     r'postcondition not satisfied|precondition not satisfied|requires not satisfied|invariant not satisfied|assertion failed|'
     r'possible arithmetic (?:under|over)flow|possible (?:division|bit shift)|decreases not satisfied|'
     r'could not prove termination|possible overflow|recommendation not met|cannot show invariant|'
-    r'possible truncation|split assertion failure|unreachable|panic|loop invariant', re.I)
+    r'possible truncation|split assertion failure|unreachable|panic|loop invariant|post-condition of closure|pre-condition of closure', re.I)
 RLIMIT_PAT = re.compile(r'resource limit|rlimit|timed out|timeout', re.I)
 
 
